@@ -11,7 +11,7 @@ TEXTCC = '<<"crlf", "lf", "trailws", "dots", "eq", "from", "bdry", "len75", "len
 BASE = dict(MAXP='2', MAXE='1', MAXA='1', ENCS='{"qp", "b64", "8bit"}', PENCS='{""}', FENCS='{""}',
             CCS=TEXTCC, PRODS='<<"string", "writer", "chunk3">>', SRCS='<<"seeker", "reader", "file", "iofs", "buffer">>',
             ROTS='{0}', BOUNDARIES='{""}', DELS='{0}', HDRS='{<<>>}', PDESCS='{""}', FDESCS='{""}', FNAMES='{""}', FCIDS='{""}', OPSEQS='{<<"WriteTo">>}', FAULTS=NOFAULT, ROUNDTRIP='{FALSE}',
-            SMIMES='{[key |-> "", inter |-> FALSE]}', MWS='{""}', STYLES='{""}')
+            SMIMES='{[key |-> "", inter |-> FALSE]}', MWS='{""}', STYLES='{""}', PGPS='{""}')
 
 
 def cfg(**kw):
@@ -51,6 +51,15 @@ STAGES = {
 
 def hdrsets(setters, vals):
     return '{' + ', '.join('<<[setter |-> "%s", val |-> "%s"]>>' % (s, v) for s in setters for v in vals) + '}'
+
+
+# beyond the list (X02): messages with a PGP/MIME type - one flat multipart/encrypted or multipart/signed around all leaves
+STAGES['X02'] = {
+    'quick': [('pgp-types', 'MimeBuild', cfg(MAXP='2', MAXE='1', MAXA='2', ENCS='{"qp", "b64", "8bit"}', PGPS='{"encrypted", "signed"}', STYLES='{"", "set"}',
+                                             BOUNDARIES='{"", "fixed"}', CCS='<<"crlf", "utf8", "bdry", "dots">>', OPSEQS='{<<"WriteTo", "WriteTo">>}'))],
+    'thorough': [('pgp-types', 'MimeBuild', cfg(MAXP='3', MAXE='2', MAXA='2', ENCS='{"qp", "b64", "8bit", "7bit"}', PGPS='{"encrypted", "signed"}', STYLES='{"", "set"}',
+                                                BOUNDARIES='{"", "fixed"}', ROTS='0..5', OPSEQS='{<<"WriteTo", "WriteTo">>, <<"Reader", "File">>}'))],
+}
 
 
 SINKFAULTS = '{[kind |-> "sink", slot |-> 0, when |-> ""], [kind |-> "short", slot |-> 0, when |-> ""], [kind |-> "shortnil", slot |-> 0, when |-> ""]}'
@@ -270,7 +279,7 @@ def facts(begin):
          'no_body': np == 0, 'single_leaf': np + ne + na <= 1,
          'nested_multiparts': (1 if np > 1 else 0) + (1 if ne >= 1 and np + ne > 1 else 0) + (1 if na >= 1 and np + ne + na > 1 else 0) >= 2,
          'fault': (begin.get('fault') or {}).get('kind', 'none'), 'signed': bool(begin.get('signed')),
-         'key': (p.get('smime') or {}).get('key', '')}
+         'key': (p.get('smime') or {}).get('key', ''), 'pgp': p.get('pgp', ''), 'has_pgp': bool(p.get('pgp'))}
     longish = ('long', 'utf8', 'longutf8', 'blanks', 'quotes', 'semi', 'token1000', 'encword')
     for s in p['embeds'] + p['atts']:
         if s['name'] in longish or s['desc'] in longish:
@@ -544,4 +553,4 @@ SELFTESTS = {
 }
 VACUITY = {'C18b': [], 'C08': ['smimes', 'smimes2', 'leaves'], 'C01': ['lines', 'leaves', 'trees', 'multiparts'], 'C12': ['faulted', 'outs'], 'C11': ['rerenders'],
            'C18': ['lines', 'hdrs', 'b64segs'], 'C02': ['lines', 'hdrs'], 'C10': ['rts', 'lines', 'leaves']}
-LEVEL = {'C08': 'model_checking', 'C10': 'exploration', 'C01': 'exploration', 'C02': 'exploration', 'C11': 'model_checking', 'C12': 'fault_enumeration', 'C18': 'exploration'}
+LEVEL = {'X02': 'exploration', 'C08': 'model_checking', 'C10': 'exploration', 'C01': 'exploration', 'C02': 'exploration', 'C11': 'model_checking', 'C12': 'fault_enumeration', 'C18': 'exploration'}
